@@ -74,6 +74,7 @@ type TreeOpts struct {
 	Minimal   bool // no siblings, no templates, single alias (enumerated phases)
 	CB        func(t *Tape, level int, role string, onPath bool) CB
 	Templates []int // allowed template indices (nil = all)
+	Fancy     bool  // unusual but legal names (%, dots, non-ASCII) and per-command error policies set by initializers
 	SubBare   bool  // sub-commands declare nothing (template 0): such a tree can be run again on the same object
 	Policy    int   // -1 = draw
 }
@@ -134,10 +135,18 @@ func genTree(t *Tape, o TreeOpts) *TreeCase {
 	for lvl := 0; lvl <= depth; lvl++ {
 		c := &CmdDecl{}
 		alias := ""
+		suffix := ""
+		if o.Fancy && t.Draw(4) == 0 {
+			suffix = []string{"%d", "%s", "%", ".x", "-y", "é", "%20x", "%!"}[t.Draw(8)]
+		}
 		if lvl == 0 {
-			c.Name = "app"
+			c.Name = "app" + suffix
 		} else {
-			c.Name = "c" + strconv.Itoa(lvl)
+			if o.Fancy && t.Draw(6) == 0 {
+				pol := policies[t.Draw(3)]
+				c.Policy = &pol
+			}
+			c.Name = "c" + strconv.Itoa(lvl) + suffix
 			alias = c.Name
 			if !o.Minimal {
 				na := t.Draw(3)
@@ -147,7 +156,7 @@ func genTree(t *Tape, o TreeOpts) *TreeCase {
 				if na > 0 {
 					alias = fmt.Sprintf("k%d_%d", lvl, t.Draw(na))
 					if t.Draw(3) == 0 {
-						alias = "c" + strconv.Itoa(lvl)
+						alias = "c" + strconv.Itoa(lvl) + suffix
 					}
 				}
 			}
@@ -220,4 +229,17 @@ func genTree(t *Tape, o TreeOpts) *TreeCase {
 	app.Finish()
 	tc.App = app
 	return tc
+}
+
+// effectivePolicy is the error policy of the command at the given level of the path when the
+// application was created with rootPolicy: a command inherits its parent's policy at the moment
+// it is declared, and its own initializer may set another one.
+func effectivePolicy(tc *TreeCase, level int, rootPolicy flag.ErrorHandling) flag.ErrorHandling {
+	eff := rootPolicy
+	for i := 1; i <= level && i < len(tc.Path); i++ {
+		if tc.Path[i].Policy != nil {
+			eff = *tc.Path[i].Policy
+		}
+	}
+	return eff
 }
